@@ -650,6 +650,11 @@ class Check:
                                                "tier": self.tier, "found_failing_input": found, "detail": payload})
             tail = "" if found else " no-failing-input-found"
             print(f"VIOLATION property={self.prop} replay={path}{tail}")
+            # a one-line digest on stderr so that logs show what was found without the replay file
+            try:
+                sys.stderr.write("  -> %s :: %s\n" % (what[:300], json.dumps(payload, default=str)[:1200]))
+            except Exception:
+                pass
         coverage = dict(coverage)
         coverage.setdefault("known_findings_hit", [k[0] for k in self.known_hits])
         write_evidence(self.prop, self.tier, self.seed, coverage, wall, len(self.violations), assumptions, level)
